@@ -737,7 +737,6 @@ func nonNegativeAtCallers(c *Ctx, f *ssa.Function, p *ssa.Parameter) bool {
 	return ok && sites > 0
 }
 
-
 // rulePostPassPositions: R8.6.
 func rulePostPassPositions(c *Ctx, t *tables) {
 	c.buildSSA()
